@@ -102,7 +102,8 @@ class Loader:
         top = name.split(".")[0]
         if name in self.libs:
             return self.libs[name]
-        m = make_lib(interp, name)
+        extra = getattr(interp, "extra_libs", {})
+        m = extra[name](interp) if name in extra else make_lib(interp, name)
         if m is None and top != name:
             m = make_lib(interp, top)
         if m is None:
